@@ -1007,6 +1007,80 @@ func TestCheck(t *testing.T) {
 			}
 		}
 	})
+	// -- name forms for which no conformant query name exists: IP literals in every spelling (answered without DNS)
+	// and names with an empty label (refused, or at least never put on the wire) --
+	type lit struct {
+		arg  string
+		ip   string
+		port uint16
+	}
+	var lits []lit
+	for _, ip := range []string{"192.0.2.7", "2001:db8::7", "::1", "::ffff:192.0.2.9"} {
+		v6 := strings.Contains(ip, ":")
+		b := ip
+		if v6 {
+			b = "[" + ip + "]"
+			lits = append(lits, lit{ip, ip, 0}, lit{b, ip, 0})
+		} else {
+			lits = append(lits, lit{ip, ip, 0})
+		}
+		lits = append(lits, lit{b + ":443", ip, 443}, lit{b + ":8443", ip, 8443},
+			lit{"https://" + b, ip, 0}, lit{"https://" + b + "/x?y=1", ip, 0}, lit{"https://" + b + ":8443/x", ip, 8443}, lit{"foo://" + b + "/", ip, 0})
+	}
+	var empties []string
+	for _, h := range []string{"a..zz", ".a.zz", "a.zz..", "..", ".", "a...b.zz", "www..zz"} {
+		empties = append(empties, h, h+":8443", "https://"+h+"/p")
+	}
+	r.ParallelW("forms", len(lits)+len(empties), 1, func(i int, rng *mrand.Rand) {
+		srv := <-servers
+		defer func() { servers <- srv }()
+		z := dohfake.NewZone()
+		z.NXUnknown = i%2 == 0
+		srv.Reset(z)
+		resolver, err := ech.NewResolver(srv.URL)
+		if err != nil {
+			r.Inconclusive("fixture: NewResolver(%q): %v", srv.URL, err)
+			return
+		}
+		ctx, cancel := context.WithTimeout(context.Background(), 2*time.Minute) // watchdog only
+		defer cancel()
+		arg := ""
+		if i < len(lits) {
+			arg = lits[i].arg
+		} else {
+			arg = empties[i-len(lits)]
+		}
+		c := map[string]any{"arg": arg}
+		var res ech.ResolveResult
+		if r.Guard("forms", i, "forms", c, func() { res, err = resolver.Resolve(ctx, arg) }) {
+			return
+		}
+		qlog := srv.Log()
+		c["queries"], c["error"], c["result"] = qlog, fmt.Sprint(err), fmt.Sprintf("%+v", res)
+		r.Eval("forms|" + arg)
+		if i < len(lits) {
+			l := lits[i]
+			r.Count("ip_literal_forms", 1)
+			want := netip.MustParseAddr(l.ip).Unmap()
+			switch got := fromNet(res.Address); {
+			case len(qlog) > 0:
+				r.Violate("forms", i, "Q1:query-for-an-ip-literal", fmt.Sprintf("Resolve(%q) sent %d DNS queries (first for %q): an IP literal has no query name", arg, len(qlog), qlog[0].Name), c)
+			case err != nil:
+				r.Violate("forms", i, "literal:error", fmt.Sprintf("Resolve(%q) failed: %v", arg, err), c)
+			case len(got) != 1 || got[0].Unmap() != want || len(res.HTTPS) != 0:
+				r.Violate("forms", i, "literal:wrong-result", fmt.Sprintf("Resolve(%q) = addresses %v, %d HTTPS records; want exactly [%s]", arg, got, len(res.HTTPS), want), c)
+			case l.port != 0 && res.Port != l.port:
+				r.Violate("forms", i, "literal:wrong-port", fmt.Sprintf("Resolve(%q) reports port %d, want %d", arg, res.Port, l.port), c)
+			}
+			return
+		}
+		r.Count("empty_label_forms", 1)
+		if len(qlog) > 0 {
+			r.Violate("forms", i, "Q1:malformed-qname:empty-label", fmt.Sprintf("Resolve(%q) put %d queries on the wire (first QNAME %q, parsed=%v): a name with an empty label has no wire form", arg, len(qlog), qlog[0].Name, qlog[0].Parsed), c)
+		}
+	})
+	r.Floor("ip_literal_forms", int64(len(lits)))
+	r.Floor("empty_label_forms", int64(len(empties)))
 	r.Floor("queries", int64(n)*2)
 	r.Floor("cases_with_resolver_history", int64(n)/6)
 	r.Floor("alias_hops_followed", int64(n)/10)
